@@ -139,6 +139,49 @@ def explain(case, f):
     return ids
 
 
+def op_partial(st):
+    return any(any(v is None for v in r["c"]) and any(v is not None for v in r["c"]) for g in st["groups"] for r in g["rows"])
+
+
+def explain_op(c):
+    """known-finding signatures at operator level (real FillTransform fed with cut streams)"""
+    st, ids = c["stream"], []
+    if c["fast_path"] and any(k == "count" and any(r["c"][i] is None for g in st["groups"] for r in g["rows"])
+                              for i, k in enumerate(st["cols"])):
+        ids.append("C08-fill-null-count-fastpath")
+    if c["split_path"] and (st["desc"] or st["fill"] == "prev"):
+        ids.append("C08-fill-split-path")
+    if st["fill"] == "prev" and len(st["cols"]) >= 2 and op_partial(st):
+        ids.append("C08-fill-previous-multicolumn")
+    return ids
+
+
+def op_cells(cells):
+    return coq_list(["CNull" if v is None else "(CVal %s)" % coq_z(v) for v in cells])
+
+
+def op_case_coq(st, cut, g, want):
+    """Coq term for one group of an operator-level case: the group's rows in the chunks induced by the global cut"""
+    nb, desc = st["nb"], st["desc"]
+    i, first, last = (-10, (nb - 1) * 10, 0) if desc else (10, 0, (nb - 1) * 10)
+    mode = {"null": "FillNull", "prev": "FillPrev"}.get(st["fill"]) or "(FillNum %s)" % coq_z(st["filln"])
+    aggs = coq_list(["(%s, %d%%nat, 1%%Z)" % ("FCount" if k == "count" else "FSum", j) for j, k in enumerate(st["cols"])])
+    # positions of this group's rows in the flattened stream
+    pos, off = [], 0
+    for gg in st["groups"]:
+        if gg is g:
+            pos = list(range(off, off + len(gg["rows"])))
+        off += len(gg["rows"])
+    chunks, start = [], 0
+    for n in cut:
+        part = [g["rows"][p - pos[0]] for p in pos if start <= p < start + n]
+        start += n
+        if part:
+            chunks.append(coq_list(["(%s, %s)" % (coq_z(r["t"]), op_cells(r["c"])) for r in part]))
+    wrows = coq_list(["(%s, %s)" % (coq_z(r["t"]), op_cells(r["c"])) for r in want["rows"]])
+    return "(%s, %s, %s, %s, %s, %s, %s)" % (coq_z(i), coq_z(first), coq_z(last), mode, aggs, coq_list(chunks), wrows)
+
+
 FINDING_TEXT = {
     "C08-fill-split-path": "GROUP BY time() with fill(): answer depends on inner_chunk_size once the filled rows exceed 2x the chunk size "
                            "(FillTransform split path; descending loses data, fill(previous) leaks across groups)",
@@ -160,6 +203,65 @@ FINDING_TEXT = {
     "C08-multicolumn-first-last-across-series": "first()/last() next to an aggregate of another field, group fed by several series, data partly "
                                                 "in the memtable: the value of the wrong series is returned (right after the flush)",
 }
+
+
+def op_level(ck, coq_ok, known_counts):
+    opbin = ck.go_build("./cmd/c08op", "c08op")
+    if not opbin:
+        return {}
+    n = 40 if ck.tier == "quick" else 400
+    rc, out = ck.run([opbin, str(n)], timeout=3000, env={"HOME": ck.work})
+    ops = [json.loads(l)["opcase"] for l in out.splitlines() if l.startswith('{"opcase"')]
+    if rc != 0 or not ops:
+        ck.broken.append("harness c08op failed rc=%d cases=%d: %s" % (rc, len(ops), out[-800:]))
+        return {}
+    hits, bad = {}, []
+    for c in ops:
+        if not c.get("fail"):
+            continue
+        live = [i for i in explain_op(c) if ck.match_finding(i)]
+        if live:
+            hits[live[0]] = hits.get(live[0], 0) + 1
+        else:
+            bad.append(c)
+    for i in sorted(hits):
+        known_counts[i] = known_counts.get(i, 0) + hits[i]
+        ck.known_finding(i, FINDING_TEXT[i])
+    for c in bad[:2]:
+        ck.violation({"kind": "direct-oracle-operator", "what": "real FillTransform: %s failed (spec = fill every window of the range cell-wise; "
+                      "invariance = same rows as the uncut run)" % c["fail"], "opcase": c}, tag="op")
+    # the Coq L2 operator recomputes the specification on the same cuts (one case per group)
+    mism = 0
+    ncoq = 0
+    if coq_ok:
+        items, seen = [], set()
+        for c in ops:
+            st = c["stream"]
+            key = json.dumps([st, c["cut"]], sort_keys=True)
+            if key in seen:
+                continue
+            seen.add(key)
+            for g, w in zip(st["groups"], c["want"]):
+                items.append(op_case_coq(st, c["cut"], g, w))
+        files = []
+        for k in range(0, len(items), 400):
+            txt = ("From Coq Require Import ZArith List Bool. From OG Require Import C08.Model C08.Corr.\n"
+                   "Import ListNotations. Open Scope Z_scope.\n"
+                   "Definition cases : list opcase := [\n%s\n].\n"
+                   "Definition M := Eval vm_compute in op_mismatches cases.\nPrint M.\n") % ";\n".join(items[k:k + 400])
+            files.append(("opcases_%d" % k, txt))
+        for rc2, o in ck.coq_eval_many(files):
+            m = re.search(r"M\s*=\s*(.*?)\s*:\s*list", o, re.S)
+            if rc2 != 0 or not m:
+                ck.broken.append("operator-level model evaluation failed: %s" % o[-600:])
+                continue
+            mism += len(re.findall(r"\d+", m.group(1)))
+        ncoq = len(items)
+        if mism:
+            ck.broken.append("correspondence C08 (operator level): Coq fill_group_chunks and the Go specification twin disagree on %d group cases" % mism)
+    return {"cases": len(ops), "streams": n, "failing_known": sum(hits.values()), "failing_unexplained": len(bad),
+            "passing": sum(1 for c in ops if not c.get("fail")), "group_cases_recomputed_by_coq": ncoq, "coq_mismatches": mism,
+            "rule": "case = (stream, ChunkSize in {1024,1,2,3,5}, cut of the input rows: uncut, every single cut position, all singletons, 2 random cuts)"}
 
 
 def main(ck):
@@ -282,6 +384,9 @@ def main(ck):
     else:
         validated = 0
 
+    # ---- (C1) operator level: the real FillTransform on every cut of small streams
+    op_cov = op_level(ck, ok, known_counts)
+
     # ---- coverage
     hist = {}
     for c in cases:
@@ -313,3 +418,5 @@ def main(ck):
     ck.cov["known_finding_hits"] = known_counts
     ck.cov["variant_histogram"] = {v: sum(1 for c in cases if c["variant"] == v) for v in ("repaired", "current", "none")}
     ck.cov["samples"] = [c["sql"] for c in cases[:6]]
+    ck.cov["operator_level"] = op_cov
+    ck.cov["known_finding_hits"] = known_counts
